@@ -9,6 +9,15 @@ run is a function of the schedule.  Oracle: every caller gets, byte for byte, th
 (status, headers, body) its request gets when it is processed alone on an identically
 built application; Wsdl11.build_interface_document runs at most once; all ?wsdl callers
 get the sequential document; nothing escapes; no deadlock.
+
+Signatures
+  C12|wsdl-built-twice, C12|wsdl-differs-from-sequential, C12|wsdl-callers-disagree
+  C12|response-differs|<app kind>:<class of the deviating request>|status/body/headers
+  C12|escaped|<ExcType>|<file:function>|<app kind>:<request class>
+  C12|deadlock|<app kind>                   (all workers blocked on scheduler-aware locks)
+  C12|stress|...                            (un-scheduled part; not replayable exactly)
+Runs in which a worker blocks in something the scheduler does not see (2 s watchdog) are
+counted as `inconclusive`, never reported.
 """
 import sys
 import threading
@@ -26,9 +35,9 @@ RULE = ("case = (mix of 2-4 requests against ONE fresh WsgiApplication, schedule
         "(a line counts only the first 2 times one activation of the function reaches it) and "
         "every call event elsewhere under spyne/protocol, spyne/server, spyne/interface, "
         "application.py; spyne's Lock/RLock instances are replaced by scheduler-aware locks. "
-        "Schedules: all orders without pre-emption; for every 2-thread mix ALL schedules with "
-        "exactly one pre-emption (stride 1: every yield point of the first thread, both start "
-        "orders); a grid of two-pre-emption schedules (8x8 quick, 48x48 thorough per start "
+        "Schedules: all orders without pre-emption; for every 2-thread mix (quick: 17 of 20) ALL "
+        "schedules with exactly one pre-emption (stride 1: every yield point of the first "
+        "thread, both start orders); a grid of two-pre-emption schedules (8x8 quick, 48x48 thorough per start "
         "order); Hypothesis-generated pre-emption lists (<=4) and PCT priority schedules (<=3 "
         "change points) for all mixes incl. the 3-4-thread ones; plus un-scheduled stress "
         "(16-32 free-running threads, switch interval 1us). Oracle: (status, headers, body) "
